@@ -87,6 +87,7 @@ register_kind("gexpr", Expr)
 register_kind("gelist", EList)
 NONE_S = OptStr.none_s
 U32 = 0xFFFFFFFF
+INT_MAX_STR_DIGITS = 4300  # CPython >= 3.11: int(str) raises ValueError beyond this many digits
 
 is_builtin = z3.Function("g_is_builtin", S, B)
 unesc = z3.Function("g_unescape", S, S)
@@ -183,7 +184,8 @@ def node_unfold(i, tag) -> list[z3.BoolRef]:  # noqa: C901
     b = z3.If(has_b, OptStr.some_s(val(j3)), NONE_S)
     j4 = z3.If(has_b, j3 + 1, j3)
     sl = kind(i + 1) == sv("LBRACKET")
-    case("PEEK", z3.And(sl, z3.Or(kind(j2) != sv("RANGE_OP"), kind(j4) != sv("RBRACKET"))), z3.If(sl, j4 + 1, i + 1), z3.If(sl, Expr.PeekSl(a, b, tag), Expr.Kw(sv("PEEK"), tag)))
+    toolong = z3.Or(z3.And(has_a, z3.Length(val(j1)) > INT_MAX_STR_DIGITS), z3.And(has_b, z3.Length(val(j3)) > INT_MAX_STR_DIGITS))
+    case("PEEK", z3.And(sl, z3.Or(kind(j2) != sv("RANGE_OP"), kind(j4) != sv("RBRACKET"), toolong)), z3.If(sl, j4 + 1, i + 1), z3.If(sl, Expr.PeekSl(a, b, tag), Expr.Kw(sv("PEEK"), tag)))
     for kw in ("PEEK_ALL", "POP", "DROP", "POP_ALL"):
         case(kw, z3.BoolVal(False), i + 1, Expr.Kw(sv(kw), tag))
     ra, rb = slice_inner(val(i)), slice_inner(val(i + 2))
@@ -211,13 +213,16 @@ def pf_unfold(j, e) -> list[z3.BoolRef]:
     n1, n2, n3 = num(j + 1), num(j + 2), num(j + 3)
     is_num = k1 == sv("NUMBER")
     exact = z3.And(lb, is_num, k2 == sv("RBRACE"))
-    go(exact, Expr.RepN(sv("exact"), e, n1, n1), j + 3, n1 > U32)
+    def big(k_):
+        return z3.Or(num(k_) > U32, z3.Length(val(k_)) > INT_MAX_STR_DIGITS)
+
+    go(exact, Expr.RepN(sv("exact"), e, n1, n1), j + 3, big(j + 1))
     mn = z3.And(lb, is_num, k2 == sv("COMMA"), k3 == sv("RBRACE"))
-    go(mn, Expr.RepN(sv("min"), e, n1, z3.IntVal(0)), j + 4, n1 > U32)
+    go(mn, Expr.RepN(sv("min"), e, n1, z3.IntVal(0)), j + 4, big(j + 1))
     mm = z3.And(lb, is_num, k2 == sv("COMMA"), k3 == sv("NUMBER"), k4 == sv("RBRACE"))
-    go(mm, Expr.RepN(sv("minmax"), e, n1, n3), j + 5, z3.Or(n1 > U32, n3 > U32))
+    go(mm, Expr.RepN(sv("minmax"), e, n1, n3), j + 5, z3.Or(big(j + 1), big(j + 3)))
     mx = z3.And(lb, k1 == sv("COMMA"), k2 == sv("NUMBER"), k3 == sv("RBRACE"))
-    go(mx, Expr.RepN(sv("max"), e, n2, z3.IntVal(0)), j + 4, n2 > U32)
+    go(mx, Expr.RepN(sv("max"), e, n2, z3.IntVal(0)), j + 4, big(j + 2))
     out.append(z3.Implies(z3.And(lb, z3.Not(exact), z3.Not(mn), z3.Not(mm), z3.Not(mx)), err))
     out.append(z3.Implies(z3.Not(is_postfix_kind(k)), z3.And(z3.Not(err), end == j, tree == e)))
     return out
@@ -406,8 +411,11 @@ class GParserModel(FunctionSpec):
                 return ("$set", items)
             return NotImplemented
         if name == "int" and len(args) == 1 and run._kind(args[0]) == "str":
-            run.assume(True, "int() is applied to the text of a NUMBER token, which is what RE_NUMBER matched (proved of the scanner: adj.value_from_regex[NUMBER]) - digits only (lex.number.language), so it cannot raise")
-            return wrap(z3.StrToInt(z(args[0], "str")), "int")
+            run.assume(True, "int() is applied to the text of a NUMBER token, which is what RE_NUMBER matched (proved of the scanner: adj.value_from_regex[NUMBER]) - digits only (lex.number.language); it raises ValueError exactly when the text has more digits than CPython converts (sys.int_info.default_max_str_digits = 4300)")
+            sarg = z(args[0], "str")
+            if run.branch(z3.Length(sarg) > INT_MAX_STR_DIGITS, "int.too_many_digits"):
+                raise PyExc("ValueError", "Exceeds the limit (4300 digits) for integer string conversion")
+            return wrap(z3.StrToInt(sarg), "int")
         return NotImplemented
 
     def call_method(self, run: Run, recv: Any, name: str, args, kwargs, n):  # noqa: C901
@@ -510,6 +518,16 @@ class GParserModel(FunctionSpec):
         def e(v):
             return z(v)
 
+        def mk_peek_slice(run, a, k):
+            # PeekSlice.__init__ converts its bounds with int(): ValueError beyond CPython's digit limit
+            for i, v in enumerate(a[:2]):
+                if v is None:
+                    continue
+                t = opt_strval(v)
+                if run.branch(z3.And(OptStr.is_some_s(t), z3.Length(OptStr.sval(t)) > INT_MAX_STR_DIGITS), f"peekslice.bound{i}.too_many_digits"):
+                    raise PyExc("ValueError", "Exceeds the limit (4300 digits) for integer string conversion")
+            return Sym(Expr.PeekSl(opt_strval(a[0]), opt_strval(a[1]), tagkw(k)), "gexpr")
+
         def nary(ctor):
             def mk(run, args, kwargs):
                 lst = EList.nil
@@ -531,7 +549,7 @@ class GParserModel(FunctionSpec):
             f"{X}.terminals.Identifier": lambda run, a, k: Sym(Expr.Ident(z(a[0], "str"), tagkw(k)), "gexpr"),
             f"{X}.terminals.PushLiteral": lambda run, a, k: Sym(Expr.PushLit(z(a[0], "str"), tagkw(k)), "gexpr"),
             f"{X}.terminals.Push": lambda run, a, k: Sym(Expr.Push(e(a[0]), tagkw(k)), "gexpr"),
-            f"{X}.terminals.PeekSlice": lambda run, a, k: Sym(Expr.PeekSl(opt_strval(a[0]), opt_strval(a[1]), tagkw(k)), "gexpr"),
+            f"{X}.terminals.PeekSlice": mk_peek_slice,
             f"{X}.terminals.Range": lambda run, a, k: Sym(Expr.Rng(z(a[0], "str"), z(a[1], "str"), tagkw(k)), "gexpr"),
             f"{X}.prefix.PositivePredicate": lambda run, a, k: Sym(Expr.Pred(z3.BoolVal(True), e(a[0]), tagkw(k)), "gexpr"),
             f"{X}.prefix.NegativePredicate": lambda run, a, k: Sym(Expr.Pred(z3.BoolVal(False), e(a[0]), tagkw(k)), "gexpr"),
